@@ -10,7 +10,9 @@ import (
 // real channel object only serves as identity (and for its capacity).  Semantics
 // are those of Go channels: unbuffered = rendezvous, buffered = FIFO queue,
 // receive from a closed empty channel yields (zero, false), send on a closed
-// channel panics.  `select` is not modelled (the instrumented packages have none).
+// channel panics.  `select` statements are rewritten to Select (below): among the
+// cases that can proceed the simulator chooses; without one the task waits on all
+// of its channels at once.
 
 type chanWaiter struct {
 	t    *Task
@@ -18,6 +20,40 @@ type chanWaiter struct {
 	ok   bool
 	done bool
 	vc   VC
+	sel  *selGroup // waiter belongs to a blocked select
+	idx  int       // its case index
+}
+
+// selGroup ties the waiters of one blocked select together: the first
+// counterpart that completes one of them wins, the others are void.
+type selGroup struct {
+	done bool
+	won  *chanWaiter
+}
+
+func hasLive(q []*chanWaiter) bool {
+	for _, w := range q {
+		if w.sel == nil || !w.sel.done {
+			return true
+		}
+	}
+	return false
+}
+
+// popLive removes and returns the first waiter that is still waiting.
+func popLive(q *[]*chanWaiter) *chanWaiter {
+	for len(*q) > 0 {
+		w := (*q)[0]
+		*q = (*q)[1:]
+		if w.sel != nil {
+			if w.sel.done {
+				continue
+			}
+			w.sel.done, w.sel.won = true, w
+		}
+		return w
+	}
+	return nil
 }
 
 type simChan struct {
@@ -72,18 +108,7 @@ func ChanSend(ch interface{}, v interface{}) {
 	if s.hb != nil {
 		vc = s.Release(nil)
 	}
-	if len(c.recvq) > 0 {
-		w := c.recvq[0]
-		c.recvq = c.recvq[1:]
-		w.v, w.ok, w.done, w.vc = v, true, true, vc
-		s.MakeRunnable(w.t)
-		s.ev(s.cur, "chsend", c.id)
-		return
-	}
-	if len(c.buf) < c.cap {
-		c.buf = append(c.buf, v)
-		c.bufVC = append(c.bufVC, vc)
-		s.ev(s.cur, "chsend-buf", c.id)
+	if s.trySend(c, v, vc) {
 		return
 	}
 	w := &chanWaiter{t: s.cur, v: v, vc: vc}
@@ -95,6 +120,54 @@ func ChanSend(ch interface{}, v interface{}) {
 	if !w.ok {
 		panic("send on closed channel")
 	}
+}
+
+// trySend completes a send that can proceed without blocking.
+func (s *Sim) trySend(c *simChan, v interface{}, vc VC) bool {
+	if w := popLive(&c.recvq); w != nil {
+		w.v, w.ok, w.done, w.vc = v, true, true, vc
+		s.MakeRunnable(w.t)
+		s.ev(s.cur, "chsend", c.id)
+		return true
+	}
+	if len(c.buf) < c.cap {
+		c.buf = append(c.buf, v)
+		c.bufVC = append(c.bufVC, vc)
+		s.ev(s.cur, "chsend-buf", c.id)
+		return true
+	}
+	return false
+}
+
+// tryRecv completes a receive that can proceed without blocking.
+func (s *Sim) tryRecv(c *simChan) (v interface{}, ok bool, done bool) {
+	if len(c.buf) > 0 {
+		v := c.buf[0]
+		s.Acquire(c.bufVC[0])
+		c.buf, c.bufVC = c.buf[1:], c.bufVC[1:]
+		// a blocked sender moves into the buffer
+		if w := popLive(&c.sendq); w != nil {
+			c.buf = append(c.buf, w.v)
+			c.bufVC = append(c.bufVC, w.vc)
+			w.ok, w.done = true, true
+			s.MakeRunnable(w.t)
+		}
+		s.ev(s.cur, "chrecv-buf", c.id)
+		return v, true, true
+	}
+	if w := popLive(&c.sendq); w != nil {
+		w.ok, w.done = true, true
+		s.Acquire(w.vc)
+		s.MakeRunnable(w.t)
+		s.ev(s.cur, "chrecv", c.id)
+		return w.v, true, true
+	}
+	if c.closed {
+		s.Acquire(c.closeV)
+		s.ev(s.cur, "chrecv-closed", c.id)
+		return nil, false, true
+	}
+	return nil, false, false
 }
 
 // ChanRecv is `v, ok := <-ch`.
@@ -116,35 +189,8 @@ func ChanRecv(ch interface{}) (interface{}, bool) {
 	}
 	c := s.chanOf(ch)
 	s.tick()
-	if len(c.buf) > 0 {
-		v := c.buf[0]
-		s.Acquire(c.bufVC[0])
-		c.buf, c.bufVC = c.buf[1:], c.bufVC[1:]
-		// a blocked sender moves into the buffer
-		if len(c.sendq) > 0 {
-			w := c.sendq[0]
-			c.sendq = c.sendq[1:]
-			c.buf = append(c.buf, w.v)
-			c.bufVC = append(c.bufVC, w.vc)
-			w.ok, w.done = true, true
-			s.MakeRunnable(w.t)
-		}
-		s.ev(s.cur, "chrecv-buf", c.id)
-		return v, true
-	}
-	if len(c.sendq) > 0 {
-		w := c.sendq[0]
-		c.sendq = c.sendq[1:]
-		w.ok, w.done = true, true
-		s.Acquire(w.vc)
-		s.MakeRunnable(w.t)
-		s.ev(s.cur, "chrecv", c.id)
-		return w.v, true
-	}
-	if c.closed {
-		s.Acquire(c.closeV)
-		s.ev(s.cur, "chrecv-closed", c.id)
-		return nil, false
+	if v, ok, done := s.tryRecv(c); done {
+		return v, ok
 	}
 	w := &chanWaiter{t: s.cur}
 	c.recvq = append(c.recvq, w)
@@ -175,15 +221,157 @@ func ChanClose(ch interface{}) {
 	if s.hb != nil {
 		c.closeV = s.Release(nil)
 	}
-	for _, w := range c.recvq {
+	for w := popLive(&c.recvq); w != nil; w = popLive(&c.recvq) {
 		w.v, w.ok, w.done, w.vc = nil, false, true, c.closeV
 		s.MakeRunnable(w.t)
 	}
 	c.recvq = nil
-	for _, w := range c.sendq {
+	for w := popLive(&c.sendq); w != nil; w = popLive(&c.sendq) {
 		w.ok, w.done = false, true
 		s.MakeRunnable(w.t)
 	}
 	c.sendq = nil
 	s.ev(s.cur, "chclose", c.id)
+}
+
+// ---------------------------------------------------------------------------
+// select
+
+// SelCase is one communication clause of a select statement.
+type SelCase struct {
+	Send bool
+	Ch   interface{}
+	Val  interface{}
+}
+
+// SelSend is `case ch <- v:`.
+func SelSend(ch interface{}, v interface{}) SelCase { return SelCase{Send: true, Ch: ch, Val: v} }
+
+// SelRecv is `case [x[, ok] :=] <-ch:`.
+func SelRecv(ch interface{}) SelCase { return SelCase{Ch: ch} }
+
+// Select is the select statement: it returns the index of the clause that
+// proceeded (-1: default) and, for a receive, the value and the ok flag.
+func Select(hasDefault bool, cases ...SelCase) (int, interface{}, bool) {
+	s := active()
+	if s == nil {
+		if cur != nil && cur.aborting {
+			return -1, nil, false
+		}
+		return realSelect(hasDefault, cases)
+	}
+	s.tick()
+	chans := make([]*simChan, len(cases))
+	var ready []int
+	for i, cs := range cases {
+		if cs.Ch == nil || reflect.ValueOf(cs.Ch).IsNil() {
+			continue
+		}
+		c := s.chanOf(cs.Ch)
+		chans[i] = c
+		if cs.Send {
+			if c.closed || hasLive(c.recvq) || len(c.buf) < c.cap {
+				ready = append(ready, i)
+			}
+		} else if len(c.buf) > 0 || hasLive(c.sendq) || c.closed {
+			ready = append(ready, i)
+		}
+	}
+	if len(ready) > 0 {
+		i := ready[0]
+		if len(ready) > 1 {
+			i = ready[s.ChooseWake(len(ready))]
+		}
+		c := chans[i]
+		if cases[i].Send {
+			if c.closed {
+				panic("send on closed channel")
+			}
+			var vc VC
+			if s.hb != nil {
+				vc = s.Release(nil)
+			}
+			s.trySend(c, cases[i].Val, vc)
+			return i, nil, false
+		}
+		v, ok, _ := s.tryRecv(c)
+		return i, v, ok
+	}
+	if hasDefault {
+		s.ev(s.cur, "select-default", 0)
+		return -1, nil, false
+	}
+	grp := &selGroup{}
+	n := 0
+	for i, cs := range cases {
+		c := chans[i]
+		if c == nil {
+			continue
+		}
+		n++
+		w := &chanWaiter{t: s.cur, sel: grp, idx: i}
+		if cs.Send {
+			w.v = cs.Val
+			if s.hb != nil {
+				w.vc = s.Release(nil)
+			}
+			c.sendq = append(c.sendq, w)
+		} else {
+			c.recvq = append(c.recvq, w)
+		}
+	}
+	s.ev(s.cur, "select-block", n)
+	for !grp.done {
+		s.Block(fmt.Sprintf("select(%d cases)", n))
+	}
+	// the void waiters leave their queues
+	for i, cs := range cases {
+		c := chans[i]
+		if c == nil {
+			continue
+		}
+		q := &c.recvq
+		if cs.Send {
+			q = &c.sendq
+		}
+		k := 0
+		for _, w := range *q {
+			if w.sel != grp {
+				(*q)[k] = w
+				k++
+			}
+		}
+		*q = (*q)[:k]
+	}
+	w := grp.won
+	if cases[w.idx].Send {
+		if !w.ok {
+			panic("send on closed channel")
+		}
+		return w.idx, nil, false
+	}
+	s.Acquire(w.vc)
+	return w.idx, w.v, w.ok
+}
+
+func realSelect(hasDefault bool, cases []SelCase) (int, interface{}, bool) {
+	var rc []reflect.SelectCase
+	for _, cs := range cases {
+		if cs.Send {
+			rc = append(rc, reflect.SelectCase{Dir: reflect.SelectSend, Chan: reflect.ValueOf(cs.Ch), Send: reflect.ValueOf(cs.Val)})
+		} else {
+			rc = append(rc, reflect.SelectCase{Dir: reflect.SelectRecv, Chan: reflect.ValueOf(cs.Ch)})
+		}
+	}
+	if hasDefault {
+		rc = append(rc, reflect.SelectCase{Dir: reflect.SelectDefault})
+	}
+	i, v, ok := reflect.Select(rc)
+	if hasDefault && i == len(rc)-1 {
+		return -1, nil, false
+	}
+	if !cases[i].Send && ok {
+		return i, v.Interface(), true
+	}
+	return i, nil, false
 }
